@@ -122,8 +122,25 @@ func newWorld(t *testing.T, r *hx.Rng) *W {
 	w.ch[0] = w.coord.GetChain(ibctesting.GetChainID(1))
 	w.ch[1] = w.coord.GetChain(ibctesting.GetChainID(2))
 
+	// identifiers of the two ends of every path differ (client, connection-independent: 07-tendermint-N+1 / N;
+	// channel-M+1 / M): an unrelated client and a never-completed channel handshake exist on chain 0 only, so a
+	// handler that confuses the source with the destination identifier looks at different state
+	extra := ibctesting.NewPath(w.ch[0], w.ch[1])
+	if err := extra.EndpointA.CreateClient(); err != nil {
+		t.Fatal(err)
+	}
 	w.pU = ibctesting.NewPath(w.ch[0], w.ch[1])
-	w.pU.Setup()
+	w.pU.SetupConnections()
+	dummy := ibctesting.NewPath(w.ch[0], w.ch[1])
+	dummy.EndpointA.ClientID, dummy.EndpointA.ConnectionID = w.pU.EndpointA.ClientID, w.pU.EndpointA.ConnectionID
+	dummy.EndpointB.ClientID, dummy.EndpointB.ConnectionID = w.pU.EndpointB.ClientID, w.pU.EndpointB.ConnectionID
+	if err := dummy.EndpointA.ChanOpenInit(); err != nil {
+		t.Fatal(err)
+	}
+	w.pU.CreateChannels()
+	if w.pU.EndpointA.ClientID == w.pU.EndpointB.ClientID || w.pU.EndpointA.ChannelID == w.pU.EndpointB.ChannelID {
+		t.Fatalf("identifiers of the two ends are meant to differ: %s/%s %s/%s", w.pU.EndpointA.ClientID, w.pU.EndpointB.ClientID, w.pU.EndpointA.ChannelID, w.pU.EndpointB.ChannelID)
+	}
 	w.pO = ibctesting.NewPath(w.ch[0], w.ch[1])
 	w.pO.EndpointA.ClientID, w.pO.EndpointB.ClientID = w.pU.EndpointA.ClientID, w.pU.EndpointB.ClientID
 	w.pO.EndpointA.ConnectionID, w.pO.EndpointB.ConnectionID = w.pU.EndpointA.ConnectionID, w.pU.EndpointB.ConnectionID
